@@ -471,6 +471,9 @@ let de_at (c : cfg) (t : string) (hex : string) : string =
   let sh = shape_of_key t in
   show_run (show_s sh) (de_auto c sh (start (bytes_of_hex hex)))
 
+(* SERD <kind> <depth>: recursive Rust types are outside the shape universe; the implementation-side oracle decides (harness) *)
+let () = register "SERD" (fun args -> match args with [_; d] -> "depth=" ^ d ^ ";ok" | _ -> "?bad-SERD")
+
 let () =
   register "SER" ser_handler;
   register "DE" de_handler
